@@ -17,7 +17,7 @@ UNARY = {'Full', 'Matricize', 'Elements', 'Norm2', 'Copy', 'Conj', 'SMul', 'Tran
 def runs(tier):
     D = 3 if tier == 'quick' else 4
     R = {1, 2} if tier == 'quick' else {1, 2, 3}
-    base = dict(MaxD=D, DimsR={1, 2}, DimsC={1, 2}, RanksS=R, Seeds={1}, MaxDepth=1, EmitAll=False, Vias={'matmul'}, QL=1, MaxDB=1, OWs={False, True}, Lean=False)
+    base = dict(MaxD=D, DimsR={1, 2}, DimsC={1, 2}, RanksS=R, Seeds={1}, MaxDepth=1, EmitAll=False, Vias={'matmul'}, QL=1, MaxDB=1, OWs={False, True}, Lean=False, IslLevel=0)
     out = []
     out.append(dict(name='unary', constants=dict(base, Scenarios={'single'}, Ops=UNARY,
                                                  KindPairs={('real', 'real'), ('complex', 'complex')})))
